@@ -182,6 +182,10 @@ type C01StaticCase struct {
 	// own defaults struct in place (maps gain and lose keys, slices and pointees
 	// are rewritten); "the caller's default" stays what it was at Config time
 	OverwriteDefaults bool `json:"overwrite_defaults,omitempty"`
+	// RepeatStatic: the first static source OBJECT is listed a second time as
+	// the last argument (Config(ctx, def, a, b, a)): it is a layer at both
+	// positions, so what it sets wins over everything in between.
+	RepeatStatic bool `json:"repeat_static,omitempty"`
 }
 
 // assignInPlace makes dst deeply equal to src while keeping dst's own
@@ -260,6 +264,7 @@ func genC01Static(t *rapid.T) C01StaticCase {
 			c.Targets = append(c.Targets, rapid.IntRange(0, nInit-1).Draw(t, "target"))
 		}
 	}
+	c.RepeatStatic = rapid.IntRange(0, 3).Draw(t, "repeat_static") == 0
 	return c
 }
 
@@ -311,6 +316,16 @@ func runStatic[T any](c C01StaticCase) vrt.Verdict {
 		tail = &fake.Watcher{}
 		srcs = append(srcs, tail)
 	}
+	repeated := -1
+	if c.RepeatStatic && tail == nil {
+		for i := 0; i < nInit-1; i++ {
+			if !watch[i] {
+				repeated = i
+				srcs = append(srcs, srcs[i])
+				break
+			}
+		}
+	}
 	earlyDone, inPlaceReports := 0, 0
 	dl, err := dials.Config(ctx, defaults.Interface().(*T), srcs...)
 	if err != nil {
@@ -319,6 +334,9 @@ func runStatic[T any](c C01StaticCase) vrt.Verdict {
 	slots := append([]shape.Layer{}, d.Layers[:nInit]...)
 	if tail != nil {
 		slots = append(slots, shape.Layer{})
+	}
+	if repeated >= 0 {
+		slots = append(slots, d.Layers[repeated])
 	}
 	check := func(what string) string {
 		md := d
@@ -459,6 +477,9 @@ func runStatic[T any](c C01StaticCase) vrt.Verdict {
 		}
 	}
 	labels := []string{"type=" + staticTypes[c.Type].name, fmt.Sprintf("sources=%d", nInit), fmt.Sprintf("watchers=%d", len(watcherIdx)), fmt.Sprintf("restacks=%d", c.Restacks)}
+	if repeated >= 0 {
+		labels = append(labels, "repeated-source")
+	}
 	if staticAfterWatcher {
 		labels = append(labels, "update-below-a-static-source")
 	}
